@@ -182,7 +182,7 @@ def r5_mustcalls(ck, w):
     for n in walk(g['body']):
         if n.get('k') == 'match' and 'CommitmentLabel' in (n.get('st') or ''):
             for a in n['arms']:
-                inserts = any(c.get('m') == 'insert' for c in hirq.calls(a['body']))
+                inserts = any(c.get('m') in ('insert', 'entry', 'get_mut') for c in hirq.calls(a['body']))     # how the scalars combine is C15.R6
                 for x in [a['pat']] + a['pat'].get('subs', []):
                     p = (x.get('p') or '')
                     if 'CommitmentLabel::' in p and inserts:
